@@ -99,7 +99,7 @@ def random_case(rng, tier):
     for action in schedule:
         if action['act'] == 'complete':
             action.update(fut=rng.randrange(max(program.get('n_futures', 1), 1)), how='value', v='done')
-    return {'program': program, 'schedule': schedule, 'opts': {}}
+    return {'program': program, 'schedule': schedule, 'opts': common.with_communicator(rng, {})}
 
 
 def shrink(case):
